@@ -852,8 +852,9 @@ def _check_case(op, inp):
             try:
                 if op == 'moys':
                     r = coll.filter_by_moys(list(req))
-                else:
-                    r = coll.filter_by_hoys([m / 60.0 for m in req])
+                else:   # hours that are no steps of the collection (inp['foreign'], minutes) select nothing
+                    hs = [m / 60.0 for m in req] + [m / 60.0 for m in inp.get('foreign', [])]
+                    r = coll.filter_by_hoys(hs[1:] + hs[:1])
             except Exception as ex:
                 return _fail('%d pairs %s' % (len(want), _short(want, 3)),
                              'raises %s: %s' % (type(ex).__name__, str(ex)[:120]),
@@ -977,6 +978,7 @@ CORPUS = [
     ('moys', {'src': [12, 1, 0, 1, 31, 23, 1, False], 'path': 'both', 'req': [0, 60, 525540]}),
     ('moys', {'src': [12, 30, 0, 1, 2, 23, 4, True], 'path': 'both', 'req': [0, 15, 527025, 524160]}),
     ('hoys', {'src': [12, 30, 0, 1, 2, 23, 4, True], 'path': 'both', 'req': [0, 15, 527025, 524160]}),
+    ('hoys', {'src': [3, 1, 0, 3, 31, 23, 2, False], 'path': 'both', 'req': [84960, 84990], 'foreign': [84930, 129600]}),
     ('period', {'src': [1, 1, 0, 12, 31, 23, 1, False], 'path': 'cont', 'fkind': 'straddle',
                 'filter': [12, 31, 0, 1, 1, 23, 1, False]}),
     # open finding C02-disc-period-order: the search keeps source order for a wrapping filter
@@ -1019,7 +1021,12 @@ def _oracle_cases(ctx):
             path = 'both' if nvals <= 1500 else 'cont'
             yield 'moys', {'src': list(c), 'path': path, 'req': req}
             if rng.random() < 0.5:
-                yield 'hoys', {'src': list(c), 'path': path, 'req': req}
+                sset = set(smoys)
+                nm = _nmin(c[7])
+                step = 60 // c[6]
+                cand = [smoys[-1] + step, smoys[0] - step, -60, nm, rng.randrange(nm) // step * step]
+                foreign = [m for m in cand if m not in sset][:rng.choice([0, 1, 2])]
+                yield 'hoys', {'src': list(c), 'path': path, 'req': req, 'foreign': foreign}
         if nvals <= 2500:
             vals = [rng.randrange(-20, 21) for _ in range(nvals)]
             yield 'values', {'src': list(c), 'cls': 'cont', 'keys': [], 'vals': vals, 'kind': 'pattern',
